@@ -202,12 +202,12 @@ PROPS["C06"] = {
 }
 PROPS["C09"] = {
     "level": "proof", "title": "Every operation terminates; the background worker never dies",
-    "lean_modules": ["Rain.Props.Proto", "Rain.Props.Lsm", "Rain.Props.C14"], "components": ["c09"], "sig_prefixes": ["c09:"],
-    "technique": "partial proof: Lean 4 progress theorem for the writer queue (a non-empty queue always has an enabled step: no deadlock of the hand-off protocol, C09_writer_progress), totality of every model function (kernel-checked structural/fuel termination of the log reader, block/table readers, merging and database iterators, compaction selection), LSM invariant preservation (the panicking layouts are unreachable) + watchdog scenarios on the real code (every public call under a deadline, every descriptor, sustained writes at the memtable-full / L0 slowdown / L0 stop thresholds, manual compactions, close with waiting writers and live iterators, panic hook on every raindb thread)",
-    "level_text": "PARTIAL. Proved for every reachable state of the protocol model: the writer hand-off cannot deadlock; every modelled read path is a total function (termination accepted by the kernel without partial/unsafe), and the LSM invariant excludes the layouts on which the worker's version builder panics. What a theorem over these models cannot exhibit - the condvar/flag protocol of the real background thread, lock re-entrancy, thread joins, panics - is decided by running the real code: every harness-issued call (all components) runs under a watchdog and a process-wide panic hook; the C09 component drives open/get/put/delete/apply/iterators/snapshots/compact_range/get_descriptor (every descriptor kind, every level argument)/close through directed scenarios (writers blocked on memtable-full and L0-stop while flushes complete, close while writers wait, close with live iterators and snapshots, empty-batch and oversized-batch writes, manual compaction of empty and full ranges) with thread counts and option draws varied per seed. Hangs or worker deaths found this way (D4, D12, D13) are repaired and their schedules kept as corpus.",
-    "design_ref": "5 (C09)",
-    "trusted_base": DB_TB + ["bounded time = the watchdog deadline (generous: seconds for calls that take milliseconds)", "the flag/condvar protocol of the background thread is exercised, not modelled: no theorem covers it"],
-    "assumptions": ["the filesystem makes progress (SimFs never blocks)"],
+    "lean_modules": ["Rain.Props.Sched", "Rain.Props.Proto", "Rain.Props.Lsm", "Rain.Props.C14"], "components": ["c09"], "sig_prefixes": ["c09:"],
+    "technique": "Lean 4 proofs over a model of the background-work protocol (scheduled flag, task channel, condition variable, shutdown): invariant for every reachable state (work is never left unscheduled, a sleeper always has a waker, the flag matches queued/running tasks), every worker task decreases a potential or sets the sticky error, every worker-only run is bounded by 2*potential and ends with every wait condition false (C09_inv, C09_sleeper_has_waker, C09_blocked_writer_has_worker, C09_worker_task_progress, C09_worker_runs_are_bounded, C09_worker_idle_means_nobody_waits, C09_waiters_are_released[_without_failure]); writer-queue progress (C09_writer_progress); totality of every model function; the model's invariant evaluated on every scheduling step and on sampled states of the real database; watchdog scenarios and a panic hook on the real code",
+    "level_text": "Proved for every reachable state and every interleaving of the protocol model: the flag/channel/condvar protocol between clients (memtable rotation, manual compaction, seek-triggered work, waits in make_room_for_write / compact_range / Drop) and the single worker cannot lose a wake-up or deadlock, and the worker alone releases every waiter within 2*potential steps (potential = pending flush + manual rounds + compaction work; the existence of such a potential for table compactions is an assumption); the writer hand-off cannot deadlock; every modelled read path is a total function (kernel-checked termination, no partial/unsafe); the LSM invariant excludes the layouts on which the version builder panics. Tied to the code on every run: the real database records every 'schedule' / worker 'start' / 'finish' step inside the critical section that performs it, and a sampler thread dumps the state whenever the mutex is free; the model's invariant (through the driver, with L0 trigger/stop regenerated from the sources) is evaluated on every recorded step (~20 000 per quick run) and every distinct sampled observation (~80 000 samples). What no model here exhibits - lock re-entrancy, thread joins, panics, a wait that re-checks a stale condition - is decided by running the real code: every harness-issued call runs under a watchdog with a process-wide panic hook; the C09 component drives every descriptor kind, sustained multi-threaded writes through the memtable-full / L0-slowdown / L0-stop waits with concurrent manual compactions, close immediately afterwards, close with live iterators, degenerate option values, snapshots/iterators from several threads. Hangs and worker deaths found this way (D4, D12, D13) are repaired and kept as corpus.",
+    "design_ref": "5 (C09), 0.2",
+    "trusted_base": DB_TB + ["bounded time on the real code = the watchdog deadline (seconds for calls that take milliseconds)", "the scheduling events are recorded by hook code inside the critical sections (should_schedule_compaction, compaction_task entry/exit); waiters are not observable, so the 'sleeper has a waker' conjunct is checked on the model only", "assumption of the progress theorems: a finite potential that every table compaction decreases and that is positive while level 0 is at the compaction trigger"],
+    "assumptions": ["the filesystem makes progress (SimFs never blocks)", "parking_lot Condvar::wait releases the mutex atomically; notify_all wakes every waiter"],
 }
 PROPS["C17"] = {
     "level": "proof", "title": "One owner at a time: a database cannot be opened or destroyed while open",
